@@ -417,7 +417,6 @@ func (s *Session) transactionHandler(cmd string, args []string) {
 			s.send("-ERR RETR argument must not exceed the number of messages")
 			return
 		}
-		s.send(fmt.Sprintf("+OK %v bytes follows", s.messages[msgNum-1].Size()))
 		s.sendMessage(s.messages[msgNum-1])
 	case "TOP":
 		if len(args) != 2 {
@@ -454,7 +453,6 @@ func (s *Session) transactionHandler(cmd string, args []string) {
 			s.send("-ERR TOP second argument must be non-negative")
 			return
 		}
-		s.send("+OK Top of message follows")
 		s.sendMessageTop(s.messages[msgNum-1], int(lines))
 	case "QUIT":
 		s.send("+OK We will process your deletes")
@@ -474,6 +472,8 @@ func (s *Session) transactionHandler(cmd string, args []string) {
 
 // Send the contents of the message to the client
 func (s *Session) sendMessage(msg storage.Message) {
+	// Open the message before promising a multi-line response: once +OK is out, the client
+	// reads until the terminating "." line.
 	reader, err := msg.Source()
 	if err != nil {
 		s.logger.Error().Msgf("Failed to read message for RETR command")
@@ -485,6 +485,7 @@ func (s *Session) sendMessage(msg storage.Message) {
 			s.logger.Error().Msgf("Failed to close message: %v", err)
 		}
 	}()
+	s.send(fmt.Sprintf("+OK %v bytes follows", msg.Size()))
 
 	scanner := bufio.NewScanner(reader)
 	for scanner.Scan() {
@@ -507,6 +508,7 @@ func (s *Session) sendMessage(msg storage.Message) {
 
 // Send the headers plus the top N lines to the client
 func (s *Session) sendMessageTop(msg storage.Message, lineCount int) {
+	// As in sendMessage, +OK is only sent once the message could be opened.
 	reader, err := msg.Source()
 	if err != nil {
 		s.logger.Error().Msgf("Failed to read message for RETR command")
@@ -518,6 +520,7 @@ func (s *Session) sendMessageTop(msg storage.Message, lineCount int) {
 			s.logger.Error().Msgf("Failed to close message: %v", err)
 		}
 	}()
+	s.send("+OK Top of message follows")
 
 	scanner := bufio.NewScanner(reader)
 	inBody := false
